@@ -65,7 +65,7 @@ def resident(cx, cfg, adt_name):
 def resident_bound(cx, cfg):
     """RawLRU fields of 2Q/ARC-style caches whose cap is the cache's own `size` (derived from the constructors' return value)"""
     F = cx.facts[cfg]
-    out = set()
+    out = {}
     for short, adt in api.CACHES.items():
         a = F.adts.get(adt)
         if a is None:
@@ -76,10 +76,12 @@ def resident_bound(cx, cfg):
         res = resident(cx, cfg, adt)
         found = None
         for f in F.doc["fns"]:
-            if f["kind"] != "AssocFn" or f.get("has_self") or not f.get("exported"):
+            if f["kind"] != "AssocFn" or not f.get("exported"):
                 continue
             if adt not in str(f.get("output")):
                 continue
+            if f.get("has_self") and ((F.impl_of(f) or {}).get("self_head") == adt):
+                continue        # methods of the cache itself (clone, ...) are not constructors; builders' finalize(self) are
             for p in cx.paths(cfg, f["path"]):
                 for t in subterms(p.ret):
                     if t[0] == "agg" and t[1] == "adt" and t[2][0] == adt:
@@ -94,8 +96,8 @@ def resident_bound(cx, cfg):
                                     ok.add(fld)
                         found = ok if found is None else (found & ok)
         if found:
-            out |= found
-    return frozenset(out)
+            out[adt] = frozenset(found)
+    return out
 
 
 def cap_aliases(cx, cfg):
@@ -170,6 +172,28 @@ def policy_hygiene(cx, chk, cfg, F, short, rule_peek, rule_purge):
                           f["span"]["file"], f["span"]["lo"], f["q"], None, cfg)
         else:
             chk.ob(rule_purge, "%s:%s::purge" % (cfg, short), "purges %s" % sorted(".".join(x) for x in retained))
+    # (c) remove(k) forgets k everywhere: a path that reports "not found" has looked the key up in every retained list
+    fr = cache_method(F, adt, "remove")
+    n_none = 0
+    for p in cx.paths(cfg, fr["path"]):
+        rv = p.ret
+        if not (isinstance(rv, tuple) and rv[0] == "agg" and rv[1] == "adt" and rv[2][1] == "None"):
+            continue
+        n_none += 1
+        looked = set()
+        for e in p.events:
+            if e["ev"] == "call" and e.get("hm") and e.get("recv") and e["recv"][0] == "H" and e["recv"][1] == ("param", 1, True):
+                looked.add(tuple(e["recv"][2][:-1]))
+        missing = retained - looked
+        if missing:
+            chk.violation(rule_purge, "%s::remove|%s" % (short, ",".join(".".join(x) for x in sorted(missing))),
+                          "%s::remove reports `not found` without looking into %s: a key remembered there survives its removal and steers later decisions" % (short, sorted(".".join(x) for x in missing)),
+                          fr["span"]["file"], fr["span"]["lo"], fr["q"], None, cfg)
+            break
+    else:
+        if n_none < 1:
+            raise AnalysisError("%s::remove has no path returning None (%s)" % (short, cfg))
+        chk.ob(rule_purge, "%s:%s::remove" % (cfg, short), "a miss has consulted %s" % sorted(".".join(x) for x in retained))
 
 
 # ------------------------------------------------------------------ configuration integrity (shared by C01, C07, C08, C10)
@@ -265,4 +289,79 @@ def clone_bounds(cx, chk, cfg, F, rule, only=None):
                             fld["n"], ("self." + src) if src else absint.fmt_val(vals.get(fld["n"]))[:50], fld["n"]), f["span"]["file"], f["span"]["lo"], f["q"], None, cfg)
             if ok:
                 chk.ob(rule, "%s:%s" % (cfg, f["q"]), "every usize bound of the clone comes from the same field of self")
+    return n
+
+
+ROLE_FAMILIES = (("probationary", "protected"), ("recent", "frequent", "freq", "ghost"), ("window", "main"))
+
+
+def _role(name):
+    """(family index, role) of an identifier that names one role of a family - and only one"""
+    if not name:
+        return None
+    n = name.lower()
+    for i, fam in enumerate(ROLE_FAMILIES):
+        hits = sorted(set("frequent" if r == "freq" else r for r in fam if r in n))
+        if len(hits) == 1:
+            return (i, hits[0])
+    return None
+
+
+def role_wiring(cx, chk, cfg, F, rule):
+    """a value that is named after one segment (`..probationary..`, `..protected..`, `recent`, `frequent`, `ghost`, `window`, `main`) is
+    never passed for a parameter, or stored into a field, that is named after ANOTHER segment of the same family: the caller's
+    configuration reaches the part it was given for.  Works on the MIR: argument / operand provenance = the field or the named local it
+    was read from (through temporaries).  Returns the number of role-carrying sites examined."""
+    n = 0
+    for b in F.doc["bodies"]:
+        fn = F.fns[b["path"]]
+        names = {i: l.get("name") for i, l in enumerate(b["locals"])}
+        defs = {}
+        for blk in b["blocks"]:
+            for s in blk["s"]:
+                if s["k"] == "assign" and not s["p"]["p"]:
+                    defs.setdefault(s["p"]["l"], []).append(s["r"])
+
+        def prov(op, depth=0):
+            if not isinstance(op, dict) or op.get("k") not in ("move", "copy") or depth > 6:
+                return None
+            pl = op["p"]
+            flds = [e["n"] for e in pl["p"] if isinstance(e, dict) and "n" in e]
+            if flds:
+                return flds[-1]
+            if names.get(pl["l"]):
+                return names[pl["l"]]
+            ds = defs.get(pl["l"], [])
+            if len(ds) == 1 and ds[0]["k"] in ("use", "cast") and ds[0].get("o"):
+                return prov(ds[0]["o"], depth + 1)
+            return None
+        for blk in b["blocks"]:
+            # struct literals
+            for s in blk["s"]:
+                if s["k"] == "assign" and s["r"]["k"] == "agg" and s["r"].get("ak") == "adt" and s["r"].get("fields"):
+                    for fld, o in zip(s["r"]["fields"], s["r"]["os"]):
+                        rf, rp = _role(fld), _role(prov(o))
+                        if rf and rp:
+                            n += 1
+                            if rf[0] == rp[0] and rf[1] != rp[1]:
+                                chk.violation(rule, "%s|field|%s" % (fn["q"], fld), "%s initialises field `%s` from `%s`: a %s value ends up configuring the %s part" % (fn["q"], fld, prov(o), rp[1], rf[1]),
+                                              fn["span"]["file"], s["ln"], fn["q"], None, cfg)
+            t = blk["t"]
+            if t["k"] != "call" or "def" not in t["f"]:
+                continue
+            r = t["f"].get("resolved")
+            cdef = r["def"] if r else t["f"]["def"]
+            cb = F.body(cdef)
+            if cb is None:
+                continue
+            for i, a in enumerate(t["args"]):
+                pn = cb["locals"][i + 1].get("name") if i + 1 < len(cb["locals"]) else None
+                rf, rp = _role(pn), _role(prov(a))
+                if rf and rp:
+                    n += 1
+                    if rf[0] == rp[0] and rf[1] != rp[1]:
+                        chk.violation(rule, "%s|arg|%s|%s" % (fn["q"], F.fns[cdef]["q"] if cdef in F.fns else cdef, pn),
+                                      "%s passes `%s` for the parameter `%s` of %s: a %s value ends up configuring the %s part" % (
+                                          fn["q"], prov(a), pn, F.fns[cdef]["q"] if cdef in F.fns else cdef, rp[1], rf[1]),
+                                      fn["span"]["file"], t["ln"], fn["q"], None, cfg)
     return n
